@@ -12,7 +12,8 @@
                         getPeerDirection, getByMid
      rtptransceiver.go  findByMid, satisfyTypeAndDirection, SetMid, Stop
      mediaengine.go     updateFromRemoteDescription (only: which kind becomes
-                        "negotiated", and whether its codec list is empty)
+                        "negotiated", and whether its codec list is empty;
+                        multi-codec negotiation on, the default)
    Definitions only; proofs are in Proofs/JsepMid*.v.
 
    Representation.  Go's "" for an unset mid is kept ("" = unset).  The Go
@@ -221,16 +222,21 @@ Fixpoint srd_loop (secs : list rsection) (l : list ltr) : list ltr * option stri
         end
   end.
 
-(* mediaEngine.updateFromRemoteDescription: the first audio (video) section
-   ever seen fixes the negotiated audio (video) codec list *)
+(* mediaEngine.updateFromRemoteDescription with multi-codec negotiation (on by
+   default: NewPeerConnection sets it unless the setting engine disables it):
+   the first audio (video) section marks the kind negotiated; every audio
+   (video) section adds its matching codecs to the negotiated list, which
+   therefore is non-empty as soon as one section of the kind had a known codec *)
+Definition engine_add (cur : option bool) (codec : bool) : option bool :=
+  match cur with None => Some codec | Some b => Some (b || codec) end.
 Fixpoint engine_update (secs : list rsection) (na nv : option bool) : option bool * option bool :=
   match secs with
   | [] => (na, nv)
   | r :: rest =>
-      match r_kind r, na, nv with
-      | KAudio, None, _ => engine_update rest (Some (r_codec r)) nv
-      | KVideo, _, None => engine_update rest na (Some (r_codec r))
-      | _, _, _ => engine_update rest na nv
+      match r_kind r with
+      | KAudio => engine_update rest (engine_add na (r_codec r)) nv
+      | KVideo => engine_update rest na (engine_add nv (r_codec r))
+      | _ => engine_update rest na nv
       end
   end.
 
